@@ -21,10 +21,6 @@ Definition ebind {A B} (r : eres A) (f : A -> state -> eres B) : eres B :=
 Notation "'doe' ( x , st ) <- r ;; k" := (ebind r (fun x st => k))
   (at level 200, x pattern, st name, r at level 100, k at level 200, right associativity).
 
-(** the RAII depth guard of the hook *)
-Definition guarded {A} (st : state) (k : state -> eres A) : eres A :=
-  let '(r, st') := k (enter st) in (r, leave st').
-
 (** eval_primitive *)
 Definition eval_real_literal (lit : str) : res number :=
   match real_parts lit with
@@ -98,7 +94,7 @@ Fixpoint eval_expr (fuel : nat) (e : expr) (env : nat) (st : state) {struct fuel
   match fuel with
   | O => (OutOfFuel, st)
   | S f =>
-      guarded st (fun st =>
+      (
       match e with
       | EPrim p _ => (eval_primitive p, st)
       | EDatum d _ => read_literal d st
@@ -152,7 +148,7 @@ with eval_tail (fuel : nat) (e : expr) (env : nat) (st : state) {struct fuel} : 
   match fuel with
   | O => (OutOfFuel, st)
   | S f =>
-      guarded st (fun st =>
+      (
       match e with
       | ECall fe args _ => (Ok (TRCall fe args env), st)
       | EIf c t alt _ =>
@@ -172,7 +168,7 @@ with apply_scheme (fuel : nat) (fm : formals) (defs : list (str * expr * loc)) (
   match fuel with
   | O => (OutOfFuel, st)
   | S f =>
-      guarded st (fun st =>
+      (
       let '(local, st0) := alloc_frame st (Some closure) in
       match bind_fixed st0 local (f_fixed fm) args with
       | Ok (surplus, st1) =>
@@ -216,7 +212,7 @@ with eval_body (fuel : nat) (body : list expr) (env : nat) (st : state) {struct 
 with apply_proc (fuel : nat) (p : value) (args : list value) (env : nat) (st : state) {struct fuel} : eres value :=
   match fuel with
   | O => (OutOfFuel, st)
-  | S f => guarded st (fun st => tramp f p args env st)
+  | S f => tramp f p args env st
   end
 
 with tramp (fuel : nat) (p : value) (args : list value) (env : nat) (st : state) {struct fuel} : eres value :=
@@ -255,7 +251,7 @@ with builtin_apply (fuel : nat) (args : list value) (env : nat) (st : state) {st
   match fuel with
   | O => (OutOfFuel, st)
   | S f =>
-      guarded st (fun st =>
+      (
       match args with
       | [] => (Panic PBuiltinArg, st)
       | p :: rest =>
